@@ -75,6 +75,17 @@ chk(
     "MIR table extraction + decision-tree walking over finite orderings + dominance + who-may-construct + return-tag analysis",
 )
 
+chk(
+    "C07",
+    "Decision-tree equivalence with the oracle the property names (CPython's slice index adjustment + stepping loop): every "
+    "path of adjust_slice_endpoint and of the loop-free prefix of variable::slice is enumerated from MIR as (comparisons "
+    "of affine forms, affine leaf) and compared with the reference tree on a grid hitting every ordering cell (complete "
+    "for this class of piecewise-affine trees); stepping loops, in-range arithmetic on every path, step==0 / non-array "
+    "guards, parse_index slot handling and index / negative-index clamps are decided structurally.",
+    "Trusted: the transcription of PySlice_AdjustIndices; arrays shorter than 2^31 elements.",
+    "MIR path enumeration with affine normalisation + finite-ordering comparison with a reference tree + dominance",
+)
+
 for pid in [f"C{n:02d}" for n in range(1, 19)]:
     if pid not in CHECKS and pid not in NOT_APPLICABLE:
         na(pid, "check not implemented yet in this revision of /verif (work in progress; see DESIGN.md §3)")
